@@ -219,7 +219,8 @@ class Transaction(EmbitBase):
 
     def hash_script_pubkeys(self, script_pubkeys):
         # the cached digest is valid only for the scripts it was computed from
-        key = tuple([sc.data for sc in script_pubkeys])
+        # (a snapshot of their bytes: sc.data may be a bytearray the caller edits in place)
+        key = tuple([bytes(sc.data) for sc in script_pubkeys])
         if self._hash_script_pubkeys is None or self._hash_script_pubkeys[0] != key:
             self._hash_script_pubkeys = (key, hash_script_pubkeys(script_pubkeys))
         return self._hash_script_pubkeys[1]
